@@ -71,6 +71,14 @@ def int_sequences(maxlen=4, vals=(-2, -1, 0, 1, 2)):
     return out
 
 
+class _Reuse(Exception):
+    pass
+
+
+OTHER_NAMES = ["foo", "e", "n", "t", "l", "C", "le", "en", "ount", "Coun", "lenCount", "Counts", "mySum", "Su", "um", "Ma",
+               "ax", "Mi", "in", "Len", "count", "sum", "max", "min", "SUM", "Summ"]
+
+
 class _RefLower(ast.NodeTransformer):
     "independent reference: exactly the one-argument calls are lowered; placeholder fold lambdas"
 
@@ -138,12 +146,24 @@ class C19(Check):
     def _lower(self, q):
         from func_adl.ast.aggregate_shortcuts import aggregate_node_transformer
 
-        return aggregate_node_transformer().visit(copy.deepcopy(q))
+        r = aggregate_node_transformer().visit(copy.deepcopy(q))
+        # one transformer object used for several queries (first one without any shortcut) must behave the same
+        t = aggregate_node_transformer()
+        t.visit(ast.parse("a + b.c(d)", mode="eval").body)
+        r2 = t.visit(copy.deepcopy(q))
+        r3 = t.visit(copy.deepcopy(q))
+        if ast.dump(r2) != ast.dump(r) or ast.dump(r3) != ast.dump(r):
+            raise _Reuse(f"a re-used transformer object gives {ast.unparse(r2)[:120]} instead of {ast.unparse(r)[:120]}")
+        return r
 
     def _structural(self, q, canon, res):
         before = ast.dump(q)
         try:
             r = self._lower(q)
+        except _Reuse as e:
+            res["oc"].append("reuse-differs")
+            res["viol"].append({"kind": "reused-transformer-object-behaves-differently", "canon": canon, "msg": str(e)})
+            return None
         except Exception as e:
             res["oc"].append("raised")
             res["viol"].append({"kind": f"raised:{type(e).__name__}", "canon": canon, "msg": str(e)[:200]})
@@ -204,6 +224,8 @@ class C19(Check):
                 "barename": lambda: (setattr(c, "func", ast.Name("foo", ast.Load())),
                                      setattr(c, "args", [ast.Name(name, ast.Load()), seq])),
             }
+            for other in OTHER_NAMES:
+                decos["other:" + other] = (lambda other=other: setattr(c, "func", ast.Name(other, ast.Load())))
             for dn, apply in decos.items():
                 saved = (c.func, c.args, c.keywords)
                 apply()
